@@ -1,7 +1,7 @@
 (* C11 — channels and signals: property theorems (statements only; proofs in
    ChanKBase.v / ChanKProofs.v (signal protocol), UChanProofs.v (unbounded MPSC
    channel), BChanProofs.v (bounded channel), ChanKStrand.v (no stranded
-   receiver), MChanProofs.v (multi channel)).
+   receiver), MChanProofs.v / MChanProofs2.v / MChanAbs.v (multi channel)).
 
    Models: ChanK.M is the T1K client for include/fiber_signal.h and
    include/fiber_channel.h; Signal.init progs = UChan.init progs = ChanK.init 2
@@ -183,72 +183,92 @@ Print Assumptions bounded_receiver_not_stranded.
 
 (* ================= 4. multi channel ================= *)
 
-(* The stranding question (finding F-C11).  Full statement that does NOT hold:
-     multichan_no_stranded : forall k progs s,
-       reachable MChan.M (MChan.init k progs) s -> ~ stranded s.
-   It is refuted on the faithful model: capacity 2, senders 0,1,2 x 2 messages,
-   receivers 3,4 x 3 messages, the 239-step schedule MChanProofs.strand_sched
-   (replayed on the real code: corpus/C11.txt, identical trace): buffer empty,
-   sender 2 and receiver 4 both asleep in the one waiter list, nobody runnable. *)
-Theorem multichan_no_stranded_refuted :
-  exists k progs s, reachable MChan.M (MChan.init k progs) s /\ MChanProofs2.reach_excl k progs s /\
-                    MChanProofs.stranded s.
+(* MChan.init k progs is the protocol in /repo (fix 30a0183): blocked senders and blocked
+   receivers are kept in separate lists, a send wakes a receiver, a receive wakes a sender.
+   MChan.init_ol true k progs is the ORIGINAL protocol with ONE list for both. *)
+
+(* Regression of finding F-C11: the original one-list protocol strands a fiber.  Capacity
+   2, senders 0,1,2 x 2 messages, receivers 3,4 x 3 messages, the 239-step schedule
+   MChanProofs.strand_sched: buffer empty, sender 2 and receiver 4 both asleep in the one
+   waiter list, nobody runnable — on an execution that respects mutual exclusion of the
+   channel lock.  (The same schedule on the two-list model completes:
+   MChanProofs.strand_fixed_completes; on the code in /repo: corpus/C11.txt.) *)
+Theorem multichan_no_stranded_one_list_refuted :
+  exists k progs s, reachable MChan.M (MChan.init_ol true k progs) s /\
+                    MChanProofs2.reach_excl true k progs s /\ MChanProofs.stranded s.
 Proof.
   exists 1%nat, MChanProofs.strand_progs, MChanProofs.strand_state.
   split; [exact MChanProofs.strand_reachable|].
   exact MChanProofs2.strand_state_reach_excl.
 Qed.
-Print Assumptions multichan_no_stranded_refuted.
+Print Assumptions multichan_no_stranded_one_list_refuted.
 
-(* Capacity and exactly-once-in-order, relative to mutual exclusion of the channel lock
-   (property C03, proved separately for src/fiber_mutex.c): [reach_excl] = reachable through
-   states in which at most one fiber holds the channel lock (MChanProofs2.holds / excl).
-   Full statements (comments in MChanProofs2.v): the same for plain [reachable]; what is
-   missing is exactly  forall s, reachable MChan.M (MChan.init k progs) s -> excl s. *)
+(* Capacity and exactly-once-in-order of the protocol in /repo, relative to mutual exclusion
+   of the channel lock (property C03, proved separately for src/fiber_mutex.c): [reach_excl
+   false k progs] = reachable from MChan.init k progs through states in which at most one
+   fiber holds the channel lock (MChanProofs2.holds / excl).
+   Full statements multichan_capacity / multichan_exactly_once_in_order: the same for plain
+   [reachable MChan.M (MChan.init k progs)]; what is missing is exactly
+     forall s, reachable MChan.M (MChan.init k progs) s -> MChanProofs2.excl s. *)
 Theorem multichan_capacity_partial :
   forall (k : nat) (progs : list (list MChan.mop)) (s : MChan.st),
-    MChanProofs2.reach_excl k progs s ->
+    MChanProofs2.reach_excl false k progs s ->
     0 <= cell (MChan.mem s) MChan.c_high - cell (MChan.mem s) MChan.c_low <= MChan.csize s /\
     forall t c x p kk,
       MChan.stk s t = [CWrite c x; FC (MChan.MSBuf p kk)] ->
       c = MChan.c_buf (MChan.bidx (MChan.csize s) (cell (MChan.mem s) MChan.c_high)) /\
       cell (MChan.mem s) c = 0.
-Proof. exact MChanProofs2.multichan_capacity_partial. Qed.
+Proof. exact (MChanProofs2.multichan_capacity_partial false). Qed.
 Print Assumptions multichan_capacity_partial.
 
 Theorem multichan_exactly_once_in_order_partial :
   forall (k : nat) (progs : list (list MChan.mop)) (x : MChanProofs2.ist),
-    MChanProofs2.ireach_excl k progs x ->
+    MChanProofs2.ireach_excl false k progs x ->
     MChanProofs2.prefix (MChanProofs2.rlog x) (MChanProofs2.slog x) /\
     cell (MChan.mem (MChanProofs2.base x)) MChan.c_high = MChanProofs2.Zlen (MChanProofs2.slog x) /\
     cell (MChan.mem (MChanProofs2.base x)) MChan.c_low = MChanProofs2.Zlen (MChanProofs2.rlog x).
-Proof. exact MChanProofs2.multichan_exactly_once_in_order_partial. Qed.
+Proof. exact (MChanProofs2.multichan_exactly_once_in_order_partial false). Qed.
 Print Assumptions multichan_exactly_once_in_order_partial.
 
-(* No stranding with a single sender or a single receiver.  Full statement (NOT proved):
-     forall k progs s, (exactly one fiber sends \/ exactly one fiber receives) ->
+(* No stranded sender / receiver with the two lists.  Full statement (NOT proved on the
+   faithful model):
+     multichan_no_stranded : forall k progs s,
        reachable MChan.M (MChan.init k progs) s -> ~ MChanProofs.stranded s.
-   Proved: the same on the abstract attempt-level protocol MChanAbs (each send / receive
-   attempt atomic, as it is under the channel lock; one LIFO list shared by blocked senders
-   and receivers; every completed operation wakes the top entry), for any capacity, any
-   number of fibers, any operation counts; and (third conjunct) that with several senders and
-   several receivers the abstract protocol does strand.  Missing for the full statement: the
-   refinement from MChan.M to MChanAbs, which needs C03 in full (mutual exclusion and
-   no stranded locker for the channel lock) and the atomicity of an attempt under it. *)
+   Proved: on the abstract attempt-level two-list protocol MChanAbs.ast2 / astep2 (each send /
+   receive attempt atomic, as it is under the channel lock; a blocked sender queues on ws, a
+   blocked receiver on wr; a completed send wakes the top of wr, a completed receive the top
+   of ws), for ANY number of senders and receivers, any operation counts, any capacity:
+   (1) the obligation invariant: a blocked sender while the buffer has room implies a sender
+       that is awake with operations left; a blocked receiver while a message is buffered
+       implies an awake receiver with operations left (wake credits: ws <> [] -> size - cnt <=
+       #awake senders, wr <> [] -> cnt <= #awake receivers);
+   (2) hence no reachable state is stranded;
+   and, as regression, (3) the one-list abstract protocol does strand with several senders and
+   receivers (MChanAbs.abs_stranded_example).
+   Missing for the full statement: the refinement from MChan.M to MChanAbs.astep2, which needs
+   C03 in full for this client (mutual exclusion and no stranded locker for the channel lock)
+   and the atomicity of an attempt under it. *)
 Theorem multichan_no_stranded_partial :
-  (forall (size nfib s : nat) (st0 st : MChanAbs.ast),
-     (0 < size)%nat -> MChanAbs.ainit st0 -> (s < nfib)%nat ->
-     (forall i, (i < nfib)%nat -> (MChanAbs.fkind (MChanAbs.fib st0 i) = MChanAbs.Sender <-> i = s)) ->
-     MChanAbs.areach size nfib st0 st -> ~ MChanAbs.stranded size nfib st) /\
-  (forall (size nfib s : nat) (st0 st : MChanAbs.ast),
-     (0 < size)%nat -> MChanAbs.ainit st0 -> (s < nfib)%nat ->
-     (forall i, (i < nfib)%nat -> (MChanAbs.fkind (MChanAbs.fib st0 i) = MChanAbs.Receiver <-> i = s)) ->
-     MChanAbs.areach size nfib st0 st -> ~ MChanAbs.stranded size nfib st) /\
+  (forall (size nfib : nat) (st0 st : MChanAbs.ast2),
+     (0 < size)%nat -> MChanAbs.ainit2 st0 -> MChanAbs.areach2 size nfib st0 st ->
+     ((exists i, (i < nfib)%nat /\ MChanAbs.fawake (MChanAbs.fib2 st i) = false /\
+                 MChanAbs.fkind (MChanAbs.fib2 st i) = MChanAbs.Sender) /\
+      (MChanAbs.cnt2 st < size)%nat ->
+      exists j, (j < nfib)%nat /\ MChanAbs.fkind (MChanAbs.fib2 st j) = MChanAbs.Sender /\
+                MChanAbs.fawake (MChanAbs.fib2 st j) = true /\ (0 < MChanAbs.frem (MChanAbs.fib2 st j))%nat) /\
+     ((exists i, (i < nfib)%nat /\ MChanAbs.fawake (MChanAbs.fib2 st i) = false /\
+                 MChanAbs.fkind (MChanAbs.fib2 st i) = MChanAbs.Receiver) /\
+      (0 < MChanAbs.cnt2 st)%nat ->
+      exists j, (j < nfib)%nat /\ MChanAbs.fkind (MChanAbs.fib2 st j) = MChanAbs.Receiver /\
+                MChanAbs.fawake (MChanAbs.fib2 st j) = true /\ (0 < MChanAbs.frem (MChanAbs.fib2 st j))%nat)) /\
+  (forall (size nfib : nat) (st0 st : MChanAbs.ast2),
+     (0 < size)%nat -> MChanAbs.ainit2 st0 -> MChanAbs.areach2 size nfib st0 st ->
+     ~ MChanAbs.stranded2 size nfib st) /\
   (MChanAbs.ainit MChanAbs.ex_init /\ MChanAbs.areach 2 5 MChanAbs.ex_init MChanAbs.ex_final /\
    MChanAbs.stranded 2 5 MChanAbs.ex_final).
 Proof.
-  split; [exact MChanAbs.abs_no_stranded_single_sender|].
-  split; [exact MChanAbs.abs_no_stranded_single_receiver | exact MChanAbs.abs_stranded_example].
+  split; [exact MChanAbs.abs2_obligation|].
+  split; [exact MChanAbs.abs2_no_stranded | exact MChanAbs.abs_stranded_example].
 Qed.
 Print Assumptions multichan_no_stranded_partial.
 
